@@ -48,6 +48,26 @@ Theorem c04_send_never_blocks : forall oc kc ic ec en hw hr sds cls input inq0 e
 Proof. exact send_never_blocks. Qed.
 Print Assumptions c04_send_never_blocks.
 
+(* error returns are part of the history: an overflow answer touches nothing but the caller's own
+   record, so the connection can be shut down after it exactly as before (the progress theorems
+   below quantify over every schedule, hence over every history of overflows) *)
+Theorem c04_overflow_is_harmless : forall oc kc ic ec en hw hr sds cls input inq0 errq0 cs i sd p r,
+  let s := run repaired (init oc kc ic ec en hw hr sds cls input inq0 errq0) cs in
+  nth_error (senders s) i = Some sd -> chk sd = true -> todo sd = p :: r -> ocap s <= length (outq s) ->
+  step repaired s (Sender i) =
+    Some (s <| senders := upd (senders s) i
+                 (sd <| todo := r |> <| chk := false |> <| results := results sd ++ [(pid p, 2%Z)] |>) |>).
+Proof. exact overflow_is_harmless. Qed.
+Print Assumptions c04_overflow_is_harmless.
+
+Example c04_example_overflow_then_close :
+  let s := run repaired overflow_init
+             [Sender 0; Sender 0; Sender 0; Sender 0;
+              Closer 0; Closer 0; Closer 0; Closer 0; Writer WSawDone; Writer WDeq; Writer WStep; Writer WStep;
+              Writer WFlushEnd; Writer WStep; Closer 0; Closer 0; Closer 0; Closer 0; Closer 0] in
+  map results (senders s) = [[(1%Z, 0%Z); (2%Z, 2%Z)]] /\ map cp (closers s) = [CRet true] /\ wire s = [p1] /\ fin s = true.
+Proof. exact repaired_overflow_then_close. Qed.
+
 (* "exactly one terminal error is offered to the error channel per connection (never blocking
    when that channel is full)" *)
 Theorem c04_one_terminal_error : forall oc kc ic ec en hw hr sds cls input inq0 errq0 cs,
